@@ -24,6 +24,8 @@ Record extra := mkExtra { x_byext : list (string * ob); x_must : list (string * 
                           x_depr : list (string * ob);
                           x_props : list (string * string * option string * option string)
                                     (* key, value as written, GetString without / with UseEnv *);
+                          x_plain : list ob
+                                    (* mapping.UnmarshalJsonBytes (exact keys) on the same type, before / after the conf loads *);
                           x_retained : bool
                                     (* the bytes RETURNED by YamlToJson / TomlToJson were still intact after the later conversions *);
                           x_inter : list (ob * ob)
@@ -171,6 +173,7 @@ Definition agrees (c : case) : bool :=
                                 | Some e => ostr_eqb on (Some (expand_str e raw))
                                 | None => true
                                 end) (x_props x)
+           && forallb (fun o => ob_eqb (ob_of (unmarshal fixed jcfg T (Some (shape rf_go FJson d)))) o) (x_plain x)
            && match x_inter x with
               | [py; pt] => ob_eqb (fst py) (oy (model3 T d)) && ob_eqb (fst pt) (ot (model3 T d))
               | [] => true
@@ -255,6 +258,11 @@ Definition prop_gen (same3 : ob3 -> bool) (c : case) : bool :=
            (* what a loader or converter returned belongs to the caller: a later (or concurrent) load must
               neither write into returned bytes nor change the outcome of a load that is between its steps *)
            && x_retained x
+           (* one type, several unmarshalers (exact keys / canonical keys / fill-default), any order *)
+           && match x_plain x with
+              | a :: rest => negb (ob_panics a) && forallb (ob_eqb a) rest
+              | [] => true
+              end
            && forallb (fun p => negb (ob_panics (snd p)) && ob_eqb (fst p) (snd p)) (x_inter x)
            (* the deprecated wrappers behave like the functions they wrap *)
            && forallb (fun er =>
